@@ -13,9 +13,7 @@ import os
 import re
 import sys
 
-from orchestrate.common import run_check, ROOT
-
-REPO = "/repo"
+from orchestrate.common import run_check, ROOT, REPO   # REPO honours VERIF_REPO (mutated trees)
 CENSUS_FILE = os.path.join(ROOT, "checks", "c08_census.json")
 DECODE_FILES = [
     "scylla-cql/src/frame/mod.rs",
@@ -33,8 +31,11 @@ DECODE_FILES = [
     "scylla-cql-core/src/deserialize/row.rs",
     "scylla-cql-core/src/deserialize/frame_slice.rs",
     "scylla-cql-core/src/deserialize/value.rs",
+    "scylla-cql-core/src/frame/response/result.rs",
+    "scylla/src/routing/locator/tablets.rs",
 ]
-ALLOC_RE = re.compile(r"with_capacity\s*\(|\.reserve(?:_exact)?\s*\(|vec!\s*\[|\.resize\s*\(")
+ALLOC_RE = re.compile(r"with_capacity(?:_and_hasher)?\s*\(|\.(?:try_)?reserve(?:_exact)?\s*\(|vec\s*!\s*\[|\.resize(?:_with)?\s*\("
+                      r"|::zeroed\s*\(|\.repeat\s*\(|from_iter\s*\(")
 
 
 def strip_rust(src):
@@ -165,10 +166,42 @@ def census_diff():
     return out
 
 
+# what a run has to contain to count as the run the evidence describes (per 100 000 requested cases)
+KIND_FLOORS = {"K": 100, "W": 800, "T": 5000, "U": 8000, "M": 20000, "C": 2000, "R": 5000, "P": 2000, "S": 1000}
+NOTRUN_CAP = 20
+
+
 def post(lines, verdicts):
-    """Census tie: a changed allocation / recursion site or table is a broken correspondence."""
-    return [("diff", "census " + d[:300], "diff census-mismatch (the cost annotations / tables of the model were written from the pinned list)")
-            for d in census_diff()]
+    """Census tie + coverage floors + cap on inputs that could not be run for environmental reasons."""
+    out = [("diff", "census " + d[:300], "diff census-mismatch (the cost annotations / tables of the model were written from the pinned list)")
+           for d in census_diff()]
+    if len(lines) < 5000:          # a replay
+        return out
+    kinds, ok_frames, typed_ok, typed_err, tablets_ok, small_ok = {}, 0, 0, 0, 0, 0
+    for ln in lines:
+        k = ln.split(" ", 1)[0]
+        kinds[k] = kinds.get(k, 0) + 1
+        impl = ln.split("|", 1)[1] if "|" in ln else ""
+        ok_frames += " ok F(" in impl or " ok Rows(" in impl
+        typed_ok += " tv=ok" in impl
+        typed_err += " tv=err@" in impl
+        tablets_ok += " tb=ok:" in impl
+        small_ok += impl.rstrip().endswith("s=ok")
+    scale = min(1.0, len(lines) / 100000.0)
+    for k, floor in KIND_FLOORS.items():
+        need = floor if k in ("K", "S") else int(floor * scale)
+        if kinds.get(k, 0) < need:
+            out.append(("diff", f"coverage kind {k}", f"diff coverage-floor kind {k}: {kinds.get(k, 0)} cases < {need}"))
+    for name, got, need in (("frames decoded successfully", ok_frames, int(10000 * scale)),
+                            ("typed rows ok", typed_ok, int(500 * scale)), ("typed rows failing", typed_err, int(300 * scale)),
+                            ("tablet payloads accepted", tablets_ok, int(200 * scale)),
+                            ("second run on the small stack", small_ok, int(0.95 * len(lines)))):
+        if got < need:
+            out.append(("diff", "coverage " + name, f"diff coverage-floor {name}: {got} < {need}"))
+    notrun = [(ln, v) for ln, v in zip(lines, verdicts) if v and v.startswith("ok notrun")]
+    if len(notrun) > NOTRUN_CAP:
+        out.append(("diff", notrun[0][0][:200], f"diff not-run {len(notrun)} inputs could not be run ({notrun[0][1]}): above the cap of {NOTRUN_CAP}"))
+    return out
 
 
 def extra_coverage(lines, verdicts):
@@ -184,7 +217,15 @@ def extra_coverage(lines, verdicts):
             if x.startswith("m="):
                 maxreq = max(maxreq, int(x[2:]))
     c = census()
+    notrun = sum(1 for v in verdicts if v and v.startswith("ok notrun"))
+    classes = {}
+    for v in verdicts:
+        m = re.search(r"class=([\w-]+)", v or "")
+        if m:
+            classes[m.group(1)] = classes.get(m.group(1), 0) + 1
     return {
+        "not_run_env": notrun,
+        "known_class_hits": classes,
         "impl_outcome_histogram": dict(sorted(outcomes.items(), key=lambda kv: -kv[1])[:60]),
         "largest_single_allocation_request_observed": maxreq,
         "census": {"alloc_sites": sum(len(v) for v in c["alloc_sites"].values()),
@@ -198,16 +239,18 @@ SPEC = {
     "coq_targets": ["Props/C08.vo", "Extract/ExC08.vo"],
     "bin": "c08",
     "sizes": {"quick": 400000, "thorough": 4000000},
+    "min_cases": {"quick": 300000, "thorough": 3000000},
     "search_n": 400000,
     "runner_timeout": 3000,
-    "rule": ("K = reproducers of the repaired crash/hang inputs (col_count/pk_count = i32::MAX, 4 GiB body length + EOF, "
+    "rule": ("K = reproducers of the repaired crash/hang/over-allocation inputs (col_count/pk_count = i32::MAX, 4 GiB body length + EOF, u16 counts without data, nested UDT/tuple headers, lz4/snappy size claims, "
              "10^5-deep list metadata, custom-type strings that hung / overflowed the stack / re-parsed exponentially, "
              "lz4 4 GiB claim, u16 counts without data); W = well-formed frames of every response kind from the extracted "
              "encoder (seeded, incl. types nested 10..10^5); T = strict prefixes of W (every cut point for short frames); "
              "U = body cut with a consistent header length; M = field mutations of W (4/2-byte boundary values at random "
              "offsets, +-1, bit flips, header fields, insert/delete, random runs); C = LZ4/Snappy-compressed variants and "
              "their mutations / wrong codec; R = random bytes, plain and behind a valid header; P = a PREPARED frame followed by a "
-             "Rows frame decoded with the first one's result metadata as cached_metadata (skip-metadata path), cuts and mutations. "
+             "Rows frame decoded with the first one's result metadata as cached_metadata (skip-metadata path), cuts and mutations; "
+             "S = custom-type strings through every branch of the string parser and 40 character-level damages of each. "
              "On every accepted frame also: "
              "typed rows (rows_iter::<Row>() over CqlValue, position of the first failure) and the tablet routing payload "
              "(RawTablet::from_custom_payload via hook H6). non-trivial = every case; "
